@@ -33,7 +33,7 @@ TInit == \E t \in 1..Len(Traces) :
 PropertyClauses(step) == C03Clauses(step) \cup C05Clauses(step) \cup C18Clauses(step)
                          \cup C09Clauses(step) \cup C08Clauses(step) \cup C12Clauses(step) \cup C04Clauses(step) \cup C17Clauses(step) \cup C16Clauses(step)
                          \cup C01Clauses(step) \cup C10Clauses(step) \cup C02Clauses(step) \cup C06Clauses(step) \cup C13Clauses(step) \cup C14Clauses(step) \cup C15Clauses(step) \cup C07Clauses(step) \cup C11Clauses(step)
-DriftClauses(r, step) == {M_Names(r.st, r.res, step), M_Con(r.st, step), M_Exc(r, step), M_Eq(r, step), M_FS(step), M_IO(step), M_Json(r.st, step), M_JsonBack(r.st, step), M_ProvN(r.st, step), M_Xml(r.st, step), M_XmlBack(r.st, step)}
+DriftClauses(r, step) == {M_Names(r.st, r.res, step), M_Con(r.st, step), M_Exc(r, step), M_Eq(r, step), M_FS(step), M_IO(step), M_Json(r.st, step), M_JsonBack(r.st, step), M_ProvN(r.st, step), M_Xml(r.st, step), M_XmlBack(r.st, step), M_Rdf(r.st, step)}
 
 Report(T, n, step, cls) ==
   /\ \A c \in cls : c.ok \/
